@@ -59,6 +59,9 @@ def the_od():
         d = od.ObjectDictionary()
         for t in ALL_TYPES:
             v = od.ODVariable(f"v{t}", 0x2000 + t, 0)
+            # the entry is (re)typed after its length has been asked for once: len() follows the type in force
+            v.data_type = 0x05 if t != 0x05 else 0x07
+            len(v)
             v.data_type = t
             d.add_object(v)
         _OD = d
@@ -108,7 +111,8 @@ def build(layout, before=None, via_read=False):
         m.clear()
     vars_ = []
     for t, ln in layout:
-        vars_.append(m.add_variable(0x2000 + t, 0, ln))
+        # an object mapped with its full length is mapped without naming the length (the entry's own size)
+        vars_.append(m.add_variable(0x2000 + t, 0, None if ln == width(t) else ln))
     return m, vars_
 
 
